@@ -283,6 +283,20 @@ func PerformJoin(
 		}
 	}
 
+	// The sanity check above ran on the auth chain as it was received and stops
+	// at the first create event it finds, which may be one that has just been
+	// dropped for a bad signature or for belonging to another room. The state
+	// that survived the checks has to contain the room's own create event, and
+	// that one must name a known room version.
+	if err = checkEventsContainCreateEvent(respState.GetStateEvents().UntrustedEvents(roomVersion)); err != nil {
+		return nil, &FederationError{
+			ServerName: input.ServerName,
+			Transient:  false,
+			Reachable:  true,
+			Err:        fmt.Errorf("sanityCheckState: %w", err),
+		}
+	}
+
 	// If we successfully performed a send_join above then the other
 	// server now thinks we're a part of the room. Send the newly
 	// returned state to the roomserver to update our local view.
